@@ -96,36 +96,55 @@ def run(ctx):
 
 
 def _scan(ctx, u, f, name, algo, role):
+    """Next/PrevTransition decided on guarded symbolic values (sa/symval.py): what the search range, the
+    filter arguments and the reported entry denote relative to the table and to the search result,
+    whatever locals, helpers and statement forms the source uses to say it."""
+    from ..symval import SymVal, render, single, lin_cmp
     F = ctx.facts(f)
     keys = F.keys
     g = ctx.cfg(f)
     short = name.split('::')[-1]
     out = dict(fn=f, sentinel=None, empty=None, cmp_field=None, query=None)
-    # empty-table guard: first statement returns false when transitions_ is empty
+    # empty-table guard
     for rn in g.returns:
         fs = F.facts_at(rn)
-        if any(fa[0] == '!=' and 'this.transitions_.empty()' in (fa[1], fa[2]) for fa in fs):
+        if any(fa[0] == '!=' and 'this.transitions_.empty()' in (fa[1], fa[2]) for fa in fs) or \
+                any(fa[0] == '==' and set((fa[1], fa[2])) == set(('this.transitions_.size()', 'n:0')) for fa in fs):
             if keys.key(kids(rn.ast)[0]) == 'n:0':
                 out['empty'] = 'transitions_.empty() -> false'
-    # sentinel guard:  if (begin->unix_time <= -(1<<59)) ++begin;
-    env = build_env(f, keys, set())
-    for x in walk(f):
-        if x.get('kind') == 'UnaryOperator' and x.get('opcode') == '++':
-            tgt = peel(kids(x)[0])
-            if tgt.get('kind') == 'DeclRefExpr' and 'Transition' in qtype(tgt):
-                fs = F.facts_at_ast(x) or frozenset()
-                for (op, a1, b1) in fs:
-                    if op == '<=' and a1.endswith('.unix_time') and b1.startswith('n:-'):
-                        out['sentinel'] = 'first.unix_time <= %s -> skip' % b1
+    # the search
+    calls = [x for x in walk(f) if x.get('kind') == 'CallExpr' and callee(x) and callee(x)[0] == 'fn'
+             and callee(x)[1].get('name') in ('upper_bound', 'lower_bound', 'equal_range', 'partition_point', 'find_if')]
+    ok = len(calls) == 1 and callee(calls[0])[1].get('name') == algo
+    sv0 = SymVal(ctx, f)
+    base = None
+    a0v = a1v = None
+    if len(calls) == 1:
+        ua = call_args(calls[0])
+        a0v, a1v = single(sv0.value_ast(ua[0]) or ()), single(sv0.value_ast(ua[1]) or ())
+        if a0v is not None and a0v[0] == 'ptr':
+            base = a0v[1]
+    # sentinel: the range starts at first+1 exactly when first.unix_time <= K
+    sent_sym = None
+    if a0v is not None and a0v[0] == 'ptr':
+        syms = [k_ for k_ in a0v[2] if k_]
+        if len(syms) == 1 and syms[0] in sv0.phis and a0v[2] == {syms[0]: 1}:
+            alts = sv0.phis[syms[0]]
+            skip = [(sv0.facts(gd), t) for (gd, t) in alts if t[2] == {'': 1}]
+            keep = [(sv0.facts(gd), t) for (gd, t) in alts if t[2] == {}]
+            if len(alts) == 2 and len(skip) == 1 and len(keep) == 1:
+                K = None
+                for fa in skip[0][0]:
+                    if fa[0] == '<=' and fa[1] == '%s[0].unix_time' % base and fa[2].startswith('n:-'):
+                        K = fa[2]
+                if K is not None and ('<', K, '%s[0].unix_time' % base) in keep[0][0]:
+                    out['sentinel'] = 'first.unix_time <= %s -> skip' % K
+                    sent_sym = syms[0]
     ctx.check(out['sentinel'] is not None, 'C11-sib', '%s: sentinel first entry skipped' % short, f,
               'the big-bang sentinel entry is not excluded from the scan: it is reported as a transition',
               construct='sentinel:%s' % short, detail=str(out['sentinel']))
     ctx.check(out['empty'] is not None, 'C11-sib', '%s: empty table answers false' % short, f,
               'a zone without transitions does not answer false', construct='empty:%s' % short)
-    # the search
-    calls = [x for x in walk(f) if x.get('kind') == 'CallExpr' and callee(x) and callee(x)[0] == 'fn'
-             and callee(x)[1].get('name') in ('upper_bound', 'lower_bound', 'equal_range', 'partition_point', 'find_if')]
-    ok = len(calls) == 1 and callee(calls[0])[1].get('name') == algo
     ctx.check(ok, 'C11-bound', '%s searches with std::%s' % (short, algo), calls[0] if calls else f,
               '%s must use std::%s: with the other bound a query instant equal to a transition is answered with the '
               'wrong neighbour ("strictly %s" violated)' % (short, algo, 'after' if role == 'upper' else 'before'),
@@ -142,25 +161,37 @@ def _scan(ctx, u, f, name, algo, role):
                 out['query'] = re.sub(r'#0x[0-9a-f]+', '', keys.key(kids(il)[0]))
     ctx.check(out['cmp_field'] == 'unix_time', 'C11-bound', '%s orders the search by unix_time' % short, calls[0],
               'the search is not ordered by the transition instant', construct='cmpfield:%s' % short, detail=str(out['cmp_field']))
-    # range [begin, end): begin..begin+size after the optional sentinel skip
-    raw = Keys(u)                      # no alias substitution: name the locals themselves
-
-    def init_key(arg):
-        d = u.by_id.get((peel(arg).get('referencedDecl') or {}).get('id'))
-        if d is not None and d.get('kind') == 'VarDecl' and kids(d):
-            return raw.key(kids(d)[-1])
-        return raw.key(arg)
-    rb, re_ = raw.key(ua[0]), raw.key(ua[1])
-    begin_ok = init_key(ua[0]) == '&(this.transitions_[n:0])'
-    end_ok = init_key(ua[1]) == '(%s + this.transitions_.size())' % rb
-    ctx.check(begin_ok and end_ok, 'C11-bound', '%s searches the whole table [first, first+size)' % short, calls[0],
-              'the search range is not the whole transition table', construct='range:%s' % short, detail='%s .. %s' % (rb, re_))
-    # results: every `trans->from = X.prev_civil_sec + 1; trans->to = X.civil_sec`
-    ubvar = None
-    for an in ancestors(calls[0]):
-        if an.get('kind') == 'VarDecl':
-            ubvar = an
-            break
+    size = '%s.size()' % base
+    whole = base is not None and (sent_sym is not None or a0v[2] == {}) and a1v is not None and a1v[0] == 'ptr' and \
+        a1v[1] == base and a1v[2] == {size: 1}
+    ctx.check(whole, 'C11-bound', '%s searches the whole table [first, first+size)' % short, calls[0],
+              'the search range is not the whole transition table', construct='range:%s' % short,
+              detail='%s .. %s' % (render(a0v), render(a1v)))
+    if base is None:
+        return out
+    sv = SymVal(ctx, f, seed_calls=[(calls[0], ('ptr', base, {'U': 1}))])
+    # the candidate: the variable that carries the search result through the skip loop
+    Ls = [(sym, info) for sym, info in sv.loops.items() if single(info['init'] or ()) == ('ptr', base, {'U': 1})]
+    want_step = {'': 1} if role == 'upper' else {'': -1}
+    Lsym = Ls[0][0] if len(Ls) == 1 else None
+    ctx.check(Lsym is not None and Ls[0][1]['step'] == want_step, 'C11-sib',
+              '%s: the skip loop starts at the search result and moves one entry %s per iteration' % (
+                  short, 'forward' if role == 'upper' else 'backward'), f,
+              'no loop carries the search result one entry at a time in the direction of the scan (found %s)' % (
+                  [(render(single(i['init'] or ()) or None), i['step']) for (_, i) in Ls],),
+              construct='skiploop:%s' % short)
+    if Lsym is None:
+        return out
+    begin_sym = [k_ for k_ in a0v[2] if k_]
+    bl = {begin_sym[0]: 1} if begin_sym else {}
+    # begin as seen by the seeded analysis (phi symbols are numbered per run)
+    b2 = single(sv.value_ast(ua[0]) or ())
+    bl = dict(b2[2]) if b2 is not None else bl
+    off = 0 if role == 'upper' else -1
+    cand = {Lsym: 1}
+    if off:
+        cand[''] = off
+    # results: every `from = X.prev_civil_sec + 1; to = X.civil_sec`
     assigns = {}
     for x in walk(f):
         if x.get('kind') == 'CXXOperatorCallExpr' and callee(x) and callee(x)[1].get('name') == 'operator=':
@@ -171,88 +202,85 @@ def _scan(ctx, u, f, name, algo, role):
     nfrom, nto = len(assigns.get('from', [])), len(assigns.get('to', []))
     ctx.check(nfrom == nto and nfrom >= 1, 'C11-sib', '%s: from/to assigned in pairs' % short, f,
               'from and to are not assigned together', construct='pairs:%s' % short, detail='%d/%d' % (nfrom, nto))
+    entries = []
+    from ..symval import lin_str
     for (xf, vf), (xt, vt) in zip(assigns.get('from', []), assigns.get('to', [])):
-        kf, kt = keys.key(vf), keys.key(vt)
-        # from = (E.prev_civil_sec + 1) ; to = E'.civil_sec with E' the entry E denotes after E's side effect
-        m1 = re.match(r'^\((.+)\.prev_civil_sec \+ n:1\)$', kf)
+        tf, tt = single(sv.value_ast(vf) or ()), single(sv.value_ast(vt) or ())
+        kf, kt = render(tf), render(tt)
+        m1 = re.match(r'^\((.+)\.prev_civil_sec \+ int:1\)$', kf)
         m2 = re.match(r'^(.+)\.civil_sec$', kt)
-        same = False
-        if m1 and m2:
-            e1, e2 = m1.group(1), m2.group(1)
-            e1n = re.sub(r'^--', '', e1)       # (--tr)->x then tr->y : same entry
-            same = e1n == e2
+        same = bool(m1 and m2 and m1.group(1) == m2.group(1))
         ctx.check(same, 'C11-sib', '%s: from = X.prev_civil_sec + 1, to = X.civil_sec for one entry X' % short, xf,
                   'the reported transition mixes two table entries or is not (previous civil second + 1, civil second): '
                   'from=%s to=%s' % (kf, kt), construct='fromto:%s' % short, detail='%s | %s' % (kf[:60], kt[:60]))
-    # filter call: EquivTransitions(prev_type, cur_type) with default type for the first real entry
+        if same:
+            entries.append((xf, m1.group(1)))
+    want_entry = '%s[%s]' % (base, lin_str(cand))
+    last_entry = '%s[%s]' % (base, lin_str({size: 1, '': -1}))
+    via_L = [e for (x, e) in entries if e == want_entry]
+    others = [(x, e) for (x, e) in entries if e != want_entry]
+    good = bool(via_L)
+    for (x, e) in others:
+        # the only other entry that may be reported is the last one, when the query lies beyond every instant
+        nodes = g.nodes_for(x)
+        facts_here = sv.facts(sv.conds_at(nodes[0])) if nodes else []
+        nonempty = any(lin_cmp(fa, '!=', ladd_({size: 1}, bl, -1)) for fa in facts_here)
+        if not (role == 'lower' and e == last_entry and nonempty):
+            good = False
+    ctx.check(good, 'C11-bound', ('PrevTransition reports the predecessor of the lower bound' if role == 'lower' else
+                                  'NextTransition reports the upper bound itself'), f,
+              'the entry reported is not %s (reported: %s)' % (
+                  'the one just before the first entry at or after the query' if role == 'lower' else 'the first entry after the query',
+                  ', '.join(e for (_, e) in entries)), construct=('pred:%s' if role == 'lower' else 'succ:%s') % short,
+              detail=want_entry)
+    # filter call: EquivTransitions(type in force before the candidate, type of the candidate)
     eqc = [x for x in walk(f) if x.get('kind') == 'CXXMemberCallExpr' and callee(x) and callee(x)[1] == 'EquivTransitions']
     ctx.check(len(eqc) == 1, 'C11-sib', '%s filters no-op transitions through EquivTransitions' % short, f,
               'no-op transitions are not filtered (or filtered more than once)', construct='filter:%s' % short)
     if len(eqc) == 1:
         a0, a1 = call_args(eqc[0])
-        # name-independent normal form: every Transition* local is a symbolic pointer
-        env = {}
-        for x in walk(f):
-            if x.get('kind') == 'VarDecl' and re.search(r'Transition\s*\*$', qtype(x)):
-                env[x['id']] = ('ptr', 'T', {'p%d' % len(env): 1})
-        pn = PtrNorm(Keys(u), env)
-
-        def entry_of(e):
-            """(offset linear form) of the table entry whose .type_index is read by e"""
-            x = peel(e)
-            d0 = u.by_id.get((x.get('referencedDecl') or {}).get('id')) if x.get('kind') == 'DeclRefExpr' else None
-            if d0 is not None and d0.get('kind') == 'VarDecl' and kids(d0):
-                x = peel(kids(d0)[-1])
-            return x
-        cur = entry_of(a1)
-        pred = entry_of(a0)
-        cur_n = pn.norm(kids(cur)[0]) if cur.get('kind') == 'MemberExpr' and cur.get('name') == 'type_index' else None
-        ok = False
-        got = 'unrecognised'
-        if cur_n is not None and pred.get('kind') == 'ConditionalOperator':
-            c, t_, e_ = kids(pred)
-            c = peel(c)
-            tk = Keys(u).key(t_)
-            en = pn.norm(kids(peel(e_))[0]) if peel(e_).get('kind') == 'MemberExpr' and peel(e_).get('name') == 'type_index' else None
-            first = None
-            if c.get('kind') == 'BinaryOperator' and c.get('opcode') == '==':
-                l, r = pn.norm(kids(c)[0]), pn.norm(kids(c)[1])
-                first = (l, r)
-            from ..ptrnorm import ladd
-            want_cur_off = {} if role == 'upper' else {'': -1}
-            res_sym = [k_ for k_ in cur_n[2] if k_][0] if [k_ for k_ in cur_n[2] if k_] else None
-            if res_sym and en is not None and first and first[0] and first[1]:
-                cur_off = {k_: v for k_, v in cur_n[2].items() if k_ == ''}
-                pred_off = ladd(en[2], cur_n[2], -1)
-                cand = first[0] if res_sym in first[0][2] else first[1]
-                other = first[1] if cand is first[0] else first[0]
-                ok = (cur_off == want_cur_off and pred_off == {'': -1} and tk == 'this.default_transition_type_' and
-                      cand[0] == 'ptr' and ladd(cand[2], cur_n[2], -1) == {} and other[0] == 'ptr' and res_sym not in other[2]
-                      and Keys(u).key(ua[0]) == Keys(u).key(kids(c)[0 if cand is first[1] else 1]))
-                got = 'current=result%+d, predecessor=current%+d, first-entry test on current, default=%s' % (
-                    cur_off.get('', 0), pred_off.get('', 99), tk)
+        v0, v1 = sv.value_ast(a0), sv.value_ast(a1)
+        cur_ok = single(v1 or ()) is not None and render(single(v1)) == '%s.type_index' % want_entry
+        first_lin = ladd_(cand, bl, -1)          # candidate - begin
+        pred_entry = '%s[%s].type_index' % (base, lin_str(ladd_(cand, {'': 1}, -1)))
+        dflt = other = False
+        got = []
+        # a merged value (phi symbol) is looked up; plain alternatives are taken as they are
+        alts = list(v0 or ())
+        for (gd, t) in alts:
+            fs = sv.facts(gd)
+            got.append('%s when %s' % (render(t), fs))
+            if render(t) == 'this.default_transition_type_' and any(lin_cmp(fa, '==', first_lin) for fa in fs):
+                dflt = True
+            elif render(t) == pred_entry and any(lin_cmp(fa, '!=', first_lin) for fa in fs):
+                other = True
+        ok = cur_ok and dflt and other and len(alts) == 2
         ctx.check(ok, 'C11-sib', '%s: filter compares the candidate entry with its predecessor (default type before the first)' % short,
                   eqc[0], 'the no-op filter does not compare the candidate entry (the %s) with the type in force just before it '
-                  '(default_transition_type_ when the candidate is the first real entry): %s' % (
-                      'search result' if role == 'upper' else 'entry before the search result', got),
-                  construct='filterargs:%s' % short, detail=got)
-        # loop exits on the first non-equivalent entry
-        fs_break = [x for x in walk(f) if x.get('kind') == 'BreakStmt']
+                  '(default_transition_type_ when the candidate is the first real entry): current=%s, previous=%s' % (
+                      'search result' if role == 'upper' else 'entry before the search result',
+                      render(single(v1 or ()) or None), '; '.join(got)[:300]),
+                  construct='filterargs:%s' % short, detail='; '.join(got)[:200])
+        # the scan moves on only past an equivalent entry
         okb = False
-        for bnode in fs_break:
-            fs = F.facts_at_ast(bnode) or frozenset()
-            if any(fa[0] == '==' and 'EquivTransitions(' in fa[1] + fa[2] and 'n:0' in (fa[1], fa[2]) for fa in fs):
-                okb = True
+        info = sv.loops[Lsym]
+        for (p, lab) in info['node'].preds:
+            st_ = sv.after.get(p.id)
+            if st_ is None or sv.at.get(p.id) is None:
+                continue
+            t_ = single(st_['vals'].get(info['var']) or ())
+            if t_ is not None and t_[2].get(Lsym) == 1 and t_[2] != {Lsym: 1}:
+                fs = sv.facts(st_['conds'])
+                okb = any(fa[0] == '!=' and 'EquivTransitions(' in fa[1] + fa[2] and 'n:0' in (fa[1], fa[2]) for fa in fs)
         ctx.check(okb, 'C11-sib', '%s: scan stops at the first entry that differs from its predecessor' % short, eqc[0],
-                  'the skip loop does not stop exactly when EquivTransitions is false', construct='filterbreak:%s' % short)
+                  'the skip loop does not move on exactly when EquivTransitions is true', construct='filterbreak:%s' % short)
     # exhausted search returns false
     endk = None
+    lim = ladd_({Lsym: 1}, {size: 1}, -1) if role == 'upper' else ladd_({Lsym: 1}, bl, -1)
     for rn in g.returns:
-        fs = F.facts_at(rn)
-        rk = keys.key(kids(rn.ast)[0])
-        lim = keys.key(ua[1]) if role == 'upper' else keys.key(ua[0])
-        tv = '%s#%s' % (ubvar['name'], ubvar['id']) if ubvar is not None else '?'
-        if any(fa[0] == '==' and set((fa[1], fa[2])) == set((tv, lim)) for fa in fs):
+        fs = sv.facts(sv.conds_at(rn))
+        if any(lin_cmp(fa, '==', lim) for fa in fs):
+            rk = keys.key(kids(rn.ast)[0])
             endk = rk
             ctx.check(rk == 'n:0', 'C11-bound', '%s: exhausted search answers false' % short, rn.ast,
                       'when no transition lies strictly %s the query the function does not answer false' % (
@@ -261,15 +289,9 @@ def _scan(ctx, u, f, name, algo, role):
         ctx.bad('C11-bound', '%s: exhausted search answers false' % short, f,
                 'no return is guarded by the search having run off the %s of the table' % ('end' if role == 'upper' else 'start'),
                 construct='exhausted:%s' % short)
-    # selected entry relative to the search result
-    if role == 'lower':
-        # result is the predecessor of the lower bound
-        good = any(keys.key(v).startswith('(--') for (x, v) in assigns.get('from', [])[-1:])
-        ctx.check(good, 'C11-bound', 'PrevTransition reports the predecessor of the lower bound', f,
-                  'the entry reported is not the one just before the first entry at or after the query',
-                  construct='pred:%s' % short)
-    else:
-        good = all(not keys.key(v).startswith('(--') and '[n:' not in keys.key(v) for (x, v) in assigns.get('from', []))
-        ctx.check(good, 'C11-bound', 'NextTransition reports the upper bound itself', f,
-                  'the entry reported is not the first entry after the query', construct='succ:%s' % short)
     return out
+
+
+def ladd_(a, b, sign=1):
+    from ..ptrnorm import ladd
+    return ladd(a, b, sign)
